@@ -7,6 +7,7 @@ import (
 	"io"
 	"math"
 	"math/rand"
+	"os"
 	"strconv"
 	"strings"
 
@@ -312,6 +313,32 @@ func c09Program(c *core.Ctx, i int64, src []byte, name, tag string, r *rand.Rand
 		c.Violation("dump-layout", "the dump does not follow the documented layout: "+d, det(map[string]any{"dump_len": len(dump)}))
 		return
 	}
+	// Dump into *os.File destinations that are not regular files
+	if i%16 == 0 {
+		if f, err := os.OpenFile("/dev/null", os.O_WRONLY, 0); err == nil {
+			var derr error
+			pan, _ := protect(func() { derr = p.Dump(f) })
+			f.Close()
+			if derr != nil || pan != "" {
+				c.Violation("dump-error", fmt.Sprintf("Dump to /dev/null failed: %v %s", derr, pan), det(nil))
+				return
+			}
+		}
+		if pr, pw, err := os.Pipe(); err == nil {
+			got := make(chan []byte, 1)
+			go func() { b, _ := io.ReadAll(pr); got <- b }()
+			var derr error
+			pan, _ := protect(func() { derr = p.Dump(pw) })
+			pw.Close()
+			b := <-got
+			pr.Close()
+			if derr != nil || pan != "" || !bytes.Equal(b, dump) {
+				c.Violation("dump-error", fmt.Sprintf("Dump into a pipe: err=%v panic=%q bytes equal=%v", derr, pan, bytes.Equal(b, dump)), det(nil))
+				return
+			}
+			c.Count("dumps_into_pipe_and_dev_null", 1)
+		}
+	}
 	c.Count("dump_bytes", int64(len(dump)))
 	c.Max("max_dump_bytes", int64(len(dump)))
 	readers := c09Readers
@@ -344,7 +371,9 @@ func c09Program(c *core.Ctx, i int64, src []byte, name, tag string, r *rand.Rand
 	{
 		var out2, lg2 bytes.Buffer
 		other := strings.Repeat("\n", 40+len(src)) + "print 12345\n"
-		if ep, err := bcl.Parse([]byte(other), "earlier", bcl.OptOutput(&out2), bcl.OptLogger(&lg2)); err == nil {
+		if ep, err := bcl.Parse([]byte(other), "earlier", bcl.OptOutput(&out2), bcl.OptLogger(&lg2), bcl.OptDisasm(true)); err == nil {
+			// the earlier program is disassembled, executed and traced before the Prog is reused
+			protect(func() { bcl.Execute(ep, bcl.OptTrace(true), bcl.OptStats(true)) })
 			var lerr error
 			pan, _ := protect(func() { lerr = ep.Load(bytes.NewReader(dump)) })
 			c.Eval(1)
@@ -361,6 +390,19 @@ func c09Program(c *core.Ctx, i int64, src []byte, name, tag string, r *rand.Rand
 			if ex.pan != "" || ex.out != w.out || ex.log != w.log || ex.err != w.err || !deepBlocksEq(ex.blocks, w.blocks) || !deepBindingEq(ex.binding, w.binding) || !bytes.Equal(d2, dump) {
 				c.Violation("load-into-existing-prog", fmt.Sprintf("a Prog reloaded from this dump differs from the parsed program: out %q vs %q, err %q vs %q, log %q vs %q, redump equal %v", core.Trunc(ex.out, 100), core.Trunc(w.out, 100), ex.err, w.err, core.Trunc(ex.log, 200), core.Trunc(w.log, 200), bytes.Equal(d2, dump)), det(nil))
 				return
+			}
+			// the reused Prog traced: same text as a freshly loaded one
+			out2.Reset()
+			var tpan string
+			tpan, _ = protect(func() { bcl.Execute(ep, bcl.OptTrace(true)) })
+			traced := out2.String()
+			var out3, lg3 bytes.Buffer
+			if fp, ferr := bcl.LoadProg(bytes.NewReader(dump), "fresh", bcl.OptOutput(&out3), bcl.OptLogger(&lg3)); ferr == nil {
+				protect(func() { bcl.Execute(fp, bcl.OptTrace(true)) })
+				if tpan != "" || traced != out3.String() {
+					c.Violation("load-into-existing-prog", fmt.Sprintf("tracing a Prog reloaded from this dump differs from tracing a freshly loaded one (panic %q): %s", tpan, firstDiff(out3.String(), traced)), det(nil))
+					return
+				}
 			}
 			c.Count("loads_into_an_existing_prog", 1)
 		}
@@ -615,10 +657,20 @@ func c13Dump(c *core.Ctx, dump []byte, src string, allCuts bool, r *rand.Rand) {
 		}
 	}
 	for _, cut := range cuts {
-		for mode := 0; mode < 3; mode++ {
-			err, pan, stack, _ := c13LoadOpt(dump[:cut], mode == 1, mode == 2)
+		for mode := 0; mode < 4; mode++ {
+			var err error
+			var pan, stack string
+			if mode == 3 {
+				// a sized reader (bytes.Reader) from which the caller has already consumed a preamble
+				br := bytes.NewReader(append([]byte("preamble-of-20-bytes"), dump[:cut]...))
+				io.CopyN(io.Discard, br, 20)
+				var out, lg bytes.Buffer
+				pan, stack = protect(func() { _, err = bcl.LoadProg(br, "t", bcl.OptOutput(&out), bcl.OptLogger(&lg)) })
+			} else {
+				err, pan, stack, _ = c13LoadOpt(dump[:cut], mode == 1, mode == 2)
+			}
 			c.Eval(1)
-			m := []string{"whole", "one-byte", "whole, disassembly and statistics on"}[mode]
+			m := []string{"whole", "one-byte", "whole, disassembly and statistics on", "bytes.Reader after a consumed preamble"}[mode]
 			if pan != "" {
 				c.Violation("truncated-panic:"+stripDigits(pan), fmt.Sprintf("LoadProg panicked on a dump cut at byte %d of %d (%s reader): %s\n%s", cut, len(dump), m, pan, core.Trunc(stack, 700)), det(cut, m))
 				return
@@ -652,6 +704,8 @@ func c13Sources(c *core.Ctx) []string {
 		// more than 65536 line feeds and more than 65536 code bytes: tables longer than any 16-bit count
 		strings.Repeat("\n", 65600) + "print 1\n",
 		"print 1" + strings.Repeat("+1", 33000) + "\n",
+		// source offsets beyond 16 MiB: 5-byte varints in the positions and line tables
+		strings.Repeat(" ", 1<<24) + "\nprint 1 + \"s\"\n",
 	}
 	return l
 }
